@@ -1,4 +1,4 @@
-import glob, json, os
+import glob, hashlib, json, os
 
 ENDPOINTS = 6
 OPS_PER_ENDPOINT = 12      # 8 keys in X-Honeycomb-Team, 3 in X-Hny-Team, 1 without any key header
@@ -43,7 +43,8 @@ def custom(vc, spec, tier, seed, replay):
     cov = ev["coverage"]
     want = int(cov.get("facts", {}).get("gridSize", "0") or 0)
     cells, requests = {}, 0
-    for trf in glob.glob(os.path.join(vc.CACHE, "run", spec["property"], "s*.tr")):
+    wd = spec["property"] + ("" if vc.REPO == "/repo" else "-" + hashlib.sha1(vc.REPO.encode()).hexdigest()[:10])
+    for trf in glob.glob(os.path.join(vc.CACHE, "run", wd, "s*.tr")):   # this run's transcripts (same naming as vcheck's workdir)
         for c in vc.parse_cases(open(trf).read()):
             g = int(_kv(c["header"].split(" "), "grid") or 0)
             if g <= 0:
